@@ -613,6 +613,27 @@ theorem window_markers :
     Frappy.Generated.C05.eventReply = "update" ∧ Frappy.Generated.C05.errorEventReply = "error_update" := by
   decide
 
+/-- The comparison and the two early returns the model of the funnel transcribes (`changed`, `emits`), as they stand in
+the source of `Module.announceUpdate` (regenerated on every run): the value is compared with Python's `!=` and nothing
+else — no tolerance (see `tolerant_compare_breaks`) —, an error with `==` of the SECoP errors; a call returns early only
+for a repeated error and for an unchanged value inside the window. -/
+theorem funnel_shape :
+    Frappy.Generated.C05.changedExprs = ["pobj.value != value or pobj.readerror"] ∧
+    Frappy.Generated.C05.earlyReturnTests = ["secop_error(err) == pobj.readerror",
+      "not changed and timestamp < (pobj.timestamp or 0) + pobj.omit_unchanged_within"] := by
+  decide
+
+/-- The fan-out as it stands in the source of `Dispatcher.broadcast_event` and of the handlers of `change` / `read`
+requests: every selected listener is sent the message by the one statement of the loop (no condition on who it is);
+which connections are selected depends on the subscription tables only; the handlers do not look at the connection that
+sent the request and store nothing in the dispatcher — what `Op.reqAcquire k` (no step reads `k`) and `listeners` model. -/
+theorem fanout_shape :
+    Frappy.Generated.C05.fanoutUnconditional = true ∧
+    Frappy.Generated.C05.fanoutReads.all
+      (fun a => ["_active_connections", "_connections", "_subscription_lock", "_subscriptions"].contains a) = true ∧
+    Frappy.Generated.C05.requestHandlersUsingConn = [] ∧ Frappy.Generated.C05.requestHandlersStores = [] := by
+  decide
+
 /-! ## non-vacuity -/
 section examples
 open Frappy.UpdateSys
